@@ -19,6 +19,14 @@ from sim import ops as simops
 
 CELLS = {"interval": 1, "triangle": 2, "tetrahedron": 3, "quadrilateral": 2}
 GEO_SCALAR = ["CellVolume", "Circumradius", "FacetArea", "CellDiameter", "MinFacetEdgeLength", "MaxFacetEdgeLength", "MinCellEdgeLength", "MaxCellEdgeLength"]
+GEO_MORE = [
+    "CellCoordinate", "CellEdgeVectors", "CellFacetJacobian", "CellFacetJacobianDeterminant", "CellFacetJacobianInverse",
+    "CellFacetOrigin", "CellOrientation", "CellOrigin", "CellRidgeJacobian", "CellRidgeOrigin", "CellVertices", "FacetCoordinate",
+    "FacetEdgeVectors", "FacetJacobian", "FacetJacobianDeterminant", "FacetJacobianInverse", "FacetOrientation", "FacetOrigin",
+    "FacetRidgeJacobian", "QuadratureWeight", "ReferenceCellEdgeVectors", "ReferenceCellVolume", "ReferenceFacetEdgeVectors",
+    "ReferenceFacetVolume", "ReferenceNormal", "ReferenceRidgeVolume", "RidgeCoordinate", "RidgeJacobian", "RidgeJacobianDeterminant",
+    "RidgeJacobianInverse", "RidgeOrigin", "CellNormal",
+]
 GEO_OTHER = ["SpatialCoordinate", "FacetNormal", "Jacobian", "JacobianDeterminant", "JacobianInverse", "CellNormal"]
 MATH1 = ["sin", "cos", "exp", "sqrt", "ln", "tanh", "atan", "erf", "sinh", "cosh", "tan", "acos", "asin"]
 CANONICAL_NUMBERING = (
@@ -241,6 +249,14 @@ class Planner:
             gq = self.call("ufl." + r.choice(["Jacobian", "JacobianDeterminant", "JacobianInverse"]), self.ref(M["slot"]), kind="geo")
             if gq is not None:
                 M["terms"].append(gq)
+        # the rarely used geometric quantities (same equality / repr / signature code, own shapes);
+        # most of them cannot be lowered, so they join the pools but not the form programs' terms
+        for name in r.sample(GEO_MORE, r.choice([0, 0, 1, 2])):
+            gq = self.call("ufl.classes." + name, self.ref(M["slot"]), kind="geo")
+            if gq is not None:
+                M["geos"].append(gq)
+                if self.cfg.get("rare_geo_in_terms") and r.random() < 0.5:
+                    M["terms"].append(gq)
         V = r.choice(M["spaces"])
         M["V"] = V
         M["v"] = self.call("ufl.TestFunction", self.ref(V), kind="arg")
@@ -1991,7 +2007,7 @@ class Planner:
             for what, mm in (("mesh-elem", m2), ("mesh-same", m3)):
                 if mm is None:
                     continue
-                for gq in M["geos"][:3]:
+                for gq in r.sample(M["geos"], min(3, len(M["geos"]))):
                     cname = type(self.obj(gq)).__name__
                     t = self.call("ufl." + cname, self.ref(mm), kind="geo")
                     if t is not None:
